@@ -149,6 +149,51 @@ def check_tables() -> Tuple[int, int, List[str]]:
     return n, len(bad), bad[:10]
 
 
+def check_soundness(points=(), n_random: int = 60) -> Tuple[int, int, List[str]]:
+    """Abstract transfer tables over-approximate torch: for random concrete arguments, the class of torch's result lies in the
+    table entry of the arguments' classes (this is the soundness half the sampled tables cannot show about themselves)."""
+    try:
+        import torch, math, random
+    except Exception:
+        return 0, 0, ['torch not importable']
+    from sa.absint import domain as D
+    D.refine(points)
+    try:
+        rnd = random.Random(7)
+        vals: List[float] = []
+        for c in D.NUM_CLASSES:
+            lo, hi = D.class_bounds(c) if c != 'NAN' else (math.nan, math.nan)
+            if c in D.SINGLETONS or c == 'NAN' or lo == hi:
+                vals.append(D.SAMPLES[c][0]); continue
+            for _ in range(n_random // len(D.NUM_CLASSES) + 3):
+                if math.isinf(lo): v = hi - math.exp(rnd.uniform(-30, 300))
+                elif math.isinf(hi): v = lo + math.exp(rnd.uniform(-30, 300))
+                else: v = lo + (hi - lo) * rnd.choice([rnd.random(), 10 ** rnd.uniform(-17, 0), 1 - 10 ** rnd.uniform(-17, 0)])
+                if D.classify(v) == c: vals.append(v)
+        un = {'neg': torch.neg, 'abs': torch.abs, 'relu': torch.relu, 'exp': torch.exp, 'expm1': torch.expm1, 'log': torch.log, 'log1p': torch.log1p,
+              'reciprocal': torch.reciprocal}
+        bi = {'add': torch.add, 'sub': torch.sub, 'mul': torch.mul, 'div': torch.div, 'logaddexp': torch.logaddexp, 'maximum': torch.maximum,
+              'minimum': torch.minimum}
+        bad: List[str] = []; n = 0
+        T = lambda v: torch.tensor(v, dtype=torch.float64)
+        for name, f in un.items():
+            for v in vals:
+                n += 1
+                ref = f(T(v)).item()
+                out, _ = D.table_entry(name, 'tensor', (D.classify(v),))
+                if D.classify(ref) not in out: bad.append(f"{name}({v!r}) = {ref!r} in {D.classify(ref)} not in table {sorted(out)}")
+        for name, f in bi.items():
+            for a in vals:
+                for b in vals:
+                    n += 1
+                    ref = f(T(a), T(b)).item()
+                    out, _ = D.table_entry(name, 'tensor', (D.classify(a), D.classify(b)))
+                    if D.classify(ref) not in out: bad.append(f"{name}({a!r},{b!r}) = {ref!r} in {D.classify(ref)} not in table {sorted(out)}")
+        return n, len(bad), bad[:10]
+    finally:
+        D.refine([])
+
+
 def main() -> int:
     ap = argparse.ArgumentParser()
     ap.add_argument('--jobs', type=int, default=min(16, os.cpu_count() or 4))
@@ -174,6 +219,10 @@ def main() -> int:
         n, nb, ex_ = check_tables()
         print(f"transfer tables vs torch/math: {n} points compared, {nb} disagreements {ex_}")
         fails += nb
+        for pts in ((), (-2.0, -0.5, 0.5, 2.0)):
+            n, nb, ex_ = check_soundness(pts)
+            print(f"abstract tables over-approximate torch (partition cut points +{list(pts)}): {n} random points, {nb} escapes {ex_}")
+            fails += nb
     return 1 if fails else 0
 
 
